@@ -51,6 +51,8 @@ type Prog struct {
 	Libs map[string]string `json:"libs,omitempty"` // "<Namespace>/<Class>.php" -> source
 	Parts []string         `json:"-"`              // the snippets (for shrinking), parallel to Tags
 	PartLibs []map[string]string `json:"-"`
+	PartIDs  []string            `json:"-"` // scalar programs: the marker id of every part (scalar.go)
+	FailParts []int              `json:"-"` // scalar programs: the parts whose output segments differed
 	Origin string          `json:"origin,omitempty"`
 }
 
